@@ -529,10 +529,22 @@ def conv_items(code, itn):
 
 
 def conv_opt_call(before, after):
-    """both code lists of one optimize() call under one flat interner; temp_<k> pre-registered"""
+    """both code lists of one optimize() call under one flat interner; temp_<k> pre-registered.
+    "after_body": the returned list as the kernel exporter desugars it (conv_stmt: Section = declarations ; { statements }),
+    against which Opt.desugar is compared."""
+    import ffcx.codegeneration.lnodes as L
+
     itn = FlatInterner()
     temps = [itn._base(f"temp_{k}") for k in range(N_TEMPS)]
-    return {"temps": temps, "before": conv_items(before, itn), "after": conv_items(after, itn)}
+    d = {"temps": temps, "before": conv_items(before, itn), "after": conv_items(after, itn)}
+    try:
+        flat = [x for x in after if not isinstance(x, list)]
+        if len(flat) == len(after) and len(after) != 1:
+            s = conv_stmt(L.StatementList(list(after)), itn)
+            d["after_body"] = s[1] if s[0] == "SList" else [s]
+    except Unsupported:
+        pass
+    return d
 
 
 def coq_items(items) -> str:
